@@ -19,6 +19,7 @@ import (
 	"github.com/vektra/mockery/v3/internal/stackerr"
 	"github.com/vektra/mockery/v3/template"
 	"github.com/xeipuuv/gojsonschema"
+	"golang.org/x/mod/modfile"
 	"golang.org/x/tools/go/packages"
 	"golang.org/x/tools/imports"
 )
@@ -96,19 +97,17 @@ func findPkgPath(dirPath *pathlib.Path) (string, error) {
 	if err != nil {
 		return "", stackerr.NewStackErr(err)
 	}
-	scanner := bufio.NewScanner(bytes.NewReader(fileBytes))
-	// Iterate over each line
-	for scanner.Scan() {
-		if !strings.HasPrefix(scanner.Text(), "module") {
-			continue
-		}
-		moduleName := strings.Split(scanner.Text(), "module ")[1]
-		return pathlib.NewPath(moduleName, pathlib.PathWithSeperator("/")).
-			JoinPath(dirRelative).
-			Clean().
-			String(), nil
+	// Let the go.mod parser find the module path: the directive may be
+	// separated by tabs or several spaces, quoted, followed by a comment or
+	// written in block form.
+	moduleName := modfile.ModulePath(fileBytes)
+	if moduleName == "" {
+		return "", stackerr.NewStackErr(ErrGoModInvalid)
 	}
-	return "", stackerr.NewStackErr(ErrGoModInvalid)
+	return pathlib.NewPath(moduleName, pathlib.PathWithSeperator("/")).
+		JoinPath(dirRelative).
+		Clean().
+		String(), nil
 }
 
 type TemplateGenerator struct {
